@@ -335,7 +335,12 @@ func c05Number(maxDigits int, exps []int) {
 		verifrt.Assume(d[i] >= '0' && d[i] <= '9')
 	}
 	verifrt.Assume(d[0] != '0' && d[n-1] != '0')
-	exp := exps[verifrt.Choose("exp", len(exps))]
+	var exp int
+	if exps == nil {
+		exp = -300 + verifrt.Choose("exp", 608) // every exponent of the normal range
+	} else {
+		exp = exps[verifrt.Choose("exp", len(exps))]
+	}
 	x := verifrt.FloatFromDecimal(d, exp)
 	neg := verifrt.AnyBool("negative")
 	if neg {
@@ -357,13 +362,7 @@ func Harness_C05_NumberFormat() {
 }
 
 // HarnessT_C05_NumberFormatAllExponents: every decimal exponent of the normal range -300..307.
-func HarnessT_C05_NumberFormatAllExponents() {
-	var exps []int
-	for e := -300; e <= 307; e++ {
-		exps = append(exps, e)
-	}
-	c05Number(15, exps)
-}
+func HarnessT_C05_NumberFormatAllExponents() { c05Number(15, nil) }
 
 func itoa(v int) []byte {
 	if v == 0 {
